@@ -691,6 +691,8 @@ def run(prop: str, tier: str) -> int:
         # end to end: client -> serializer -> server connection handler -> framing -> router -> driver, and back to the writer's view
         from . import syscheck
         syscheck.run_into(v, "C06", tier)
+        from . import clientmirror
+        clientmirror.run_into(v, "C06", tier)
         v.phase("end_to_end")
     if prop == "C12":
         from . import robust
@@ -703,6 +705,10 @@ def replay(prop: str, path: str) -> int:
     rp = json.load(open(path))["replay"]
     if rp.get("kind") == "deployment":
         print(rp["what"])
+        print(f"VIOLATION property={prop} replay={path}")
+        return 1
+    if rp.get("kind") == "clientwrite-trace":
+        print(json.dumps(rp["observed"], indent=1)[:1500])
         print(f"VIOLATION property={prop} replay={path}")
         return 1
     if rp.get("kind") == "robust-session":
